@@ -780,6 +780,89 @@ def spelling_feats(c):
 
 
 # ---------------------------------------------------------------------------
+# adjacency family: a macro invocation written directly next to an operator character
+# ---------------------------------------------------------------------------
+
+PASTE_BIN = [o for o in E.BINOPS if o != ","]
+PASTE_UN = ["-", "+", "!", "~"]
+LONG_OPS = ["<<=", ">>=", "->*", "...", "<=>", "++", "--", "->", "<<", ">>", "<=", ">=", "==", "!=", "&&", "||", "+=",
+            "-=", "*=", "/=", "%=", "&=", "|=", "^=", "::", ".*", "//", "/*", "##", "<:", "<%", "%>", ":>", "%:"]
+
+
+def glued(a, b):
+    """the multi-character operator that the end of `a` and the start of `b` would form if they were glued"""
+    t = a + b
+    for n in (3, 2):
+        for i in range(max(0, len(a) - n + 1), len(a)):
+            if t[i:i + n] in LONG_OPS and i + n > len(a):
+                return t[i:i + n]
+    return "none"
+
+
+def paste_units():
+    """(form, a, b, b2, defines, condition text, tree).  In every unit the text, read token by token as a conforming
+    preprocessor does, is `2 a (b [b2] 1)`; written so that a macro's expansion begins or ends where an operator
+    character stands with no white space in between."""
+    L = lambda v: ["lit", str(v), v, "i"]
+    out = []
+    for a in PASTE_BIN:
+        for b in PASTE_UN:
+            tree = ["bin", a, L(2), ["un", b, L(1)]]
+            out.append(("op-then-macro", a, b, "", ["#define PM %s1" % b], "2%sPM" % a, tree))
+            out.append(("opmacro-then-op", a, b, "", ["#define OP %s" % a], "2 OP%s1" % b, tree))
+            out.append(("macro-ends-with-op", a, b, "", ["#define LM 2 %s" % a], "LM%s1" % b, tree))
+            out.append(("opmacro-then-macro", a, b, "", ["#define OP %s" % a, "#define PM %s1" % b], "2 OP PM", tree))
+            out.append(("arg-begins-with-op", a, b, "", ["#define ID(x) x"], "2%sID(%s1)" % (a, b), tree))
+            if a in ("+", "-", "<", ">", "&", "|", "&&", "==", "*", "<<"):
+                for b2 in PASTE_UN:
+                    t2 = ["bin", a, L(2), ["un", b, ["un", b2, L(1)]]]
+                    out.append(("nested-macro", a, b, b2, ["#define PN %s1" % b2, "#define PM %sPN" % b],
+                                "2%sPM" % a, t2))
+                    out.append(("function-macro", a, b, b2, ["#define PF(x) %sx" % b], "2%sPF(%s1)" % (a, b2), t2))
+    return out
+
+
+def run_paste(ctx, case, res):
+    d = ctx.casedir(case["id"])
+    incs = setup_incs(d)
+    units = []
+    for u in paste_units():
+        v = E.try_eval(u[6])
+        if v is None:
+            continue            # e.g. 2 / !1, 2 << -1: not this family's business
+        units.append(u + (v[0],))
+    names = ["PM", "PN", "OP", "LM", "PF", "ID"]
+    for where in ("if", "elif"):
+        secs = []
+        for j, (form, a, b, b2, defs, cond, tree, v) in enumerate(units):
+            lines = ["#undef " + n for n in names] + defs
+            test = "(%s) == %s" % (cond, ("(%d)" % v) if v < 0 else str(v))
+            lines += (["#if " + test] if where == "if" else ["#if 0", "#elif " + test])
+            lines += ["int ct_%d_t;" % j, "#else", "int ct_%d_f;" % j, "#endif"]
+            secs.append((j, lines, True))
+        for start in range(0, len(secs), 120):
+            chunk = secs[start:start + 120]
+            out = run_sections(d, incs, chunk, "P%s%d" % (where, start))
+            res.count("files")
+            for j, lines, exp in chunk:
+                form, a, b, b2 = units[j][:4]
+                o = out.get(j)
+                if o == "inconclusive":
+                    res.count("references_disagree")
+                    continue
+                res.count("adjacency_units")
+                if o == "ok":
+                    res.features.add("paste:%s:%s:%s%s:%s" % (form, a, b, b2, where))
+                    continue
+                key = "%s:paste:form=%s:in=%s:glued=%s" % (cat(o), form, where, glued(a, b + b2))
+                res.features.add("failure:" + key)
+                if not any(k == key for k, _ in res.violations):
+                    res.violation(key, witness="\n".join(lines), tokens="2 %s %s%s1" % (a, b, b2),
+                                  replay_case=dict(id="w", kind="text", key=key, text="\n".join(lines) + "\n"))
+    res.sample = dict(family="paste", text="\n".join(secs[len(secs) // 2][1]))
+
+
+# ---------------------------------------------------------------------------
 # cases
 # ---------------------------------------------------------------------------
 
@@ -811,6 +894,8 @@ def _run_case(ctx, case):
             confirm_unit(ctx, d, res, u, case.get("family", "exh"))
     elif kind == "text":
         run_text(ctx, case, res)
+    elif kind == "paste":
+        run_paste(ctx, case, res)
     else:
         raise core.HarnessError("unknown case kind " + str(kind))
     return res
@@ -860,6 +945,7 @@ def main(chk):
         cases.append(dict(id="x%d" % i, kind="exh", D=Dx, part=pt))
     for i, pt in enumerate(parts(Ds, 2)):
         cases.append(dict(id="s%d" % i, kind="side", D=Ds, part=pt))
+    cases.append(dict(id="p0", kind="paste"))
     nr = chk.pick(1600, 4000)
     for i in range(nr):
         prof = {}
